@@ -100,4 +100,9 @@ def Val.erase (v : Val) (x : Name) : Val := v.filter (fun p => p.1 != x)
 
 def Val.setAll (v : Val) (a : List (Name × Int)) : Val := a.foldl (fun v p => v.set p.1 p.2) v
 
+def zipAllB {α β : Type} (p : α → β → Bool) : List α → List β → Bool
+  | [], [] => true
+  | a :: as, b :: bs => p a b && zipAllB p as bs
+  | _, _ => false
+
 end Scfg
